@@ -1,6 +1,6 @@
 (* Properties_C08.v — C08: powers and modular powers are exact.  Statements only. *)
 From Coq Require Import ZArith List Bool.
-From Mpir Require Import Word DivDefs GcdDefs PowDefs PowProofs.
+From Mpir Require Import Word Limbs MpzDefs DivDefs GcdDefs PowDefs PowProofs PowmWDefs PowmWProofs.
 Import ListNotations.
 Local Open Scope Z_scope.
 
@@ -41,6 +41,40 @@ Theorem C08_mpz_powm : forall b e m,
   /\ mpz_pow_ui 0 0 = 1.
 Proof. exact mpz_powm_spec. Qed.
 Print Assumptions C08_mpz_powm.
+
+
+(* ---- mpn/generic/powm.c and mpz/powm.c AS CODED (PowmWDefs.v), the executable models of the families mpn_powm-as-coded and
+   mpz_powm-as-coded ---- *)
+
+(* the window of exponent bits: for every position, windows that straddle a limb boundary and the short window at the bottom included *)
+Theorem C08_getbits : forall p bi nbits, wf p -> 0 <= bi -> 1 <= nbits <= 63 ->
+  getbits p bi nbits = if bi <? nbits then eval p mod 2 ^ bi else (eval p / 2 ^ (bi - nbits)) mod 2 ^ nbits.
+Proof. exact getbits_spec. Qed.
+Print Assumptions C08_getbits.
+
+Theorem C08_win_size : forall eb, 0 <= eb < B -> 1 <= win_size eb <= 10.
+Proof. exact win_size_range. Qed.
+Print Assumptions C08_win_size.
+
+(* the whole routine - table of odd powers in Montgomery form, first window, zero-skipping loop, squaring / window loop, conversion
+   out of Montgomery form and the final canonical reduction - returns b^e mod m for EVERY base (reduced or not), every exponent
+   and every odd modulus *)
+Theorem C08_mpn_powm_as_coded : forall bl el ml, wf bl -> wf el -> wf ml ->
+  el <> [] -> lat el (len el - 1) <> 0 -> 64 * len el < B -> Z.odd (lat ml 0) = true ->
+  mpn_powm_c bl el ml = to_limbs (length ml) (eval bl ^ eval el mod eval ml).
+Proof. exact mpn_powm_c_spec. Qed.
+Print Assumptions C08_mpn_powm_as_coded.
+
+(* the wrapper for odd moduli: e = 0, negative exponents through the inverse (both outcomes), zero and negative bases, normalised result.
+   (Partial: the even-modulus path and |e| = 1 are modelled as coded and tied by execution, not covered by this theorem.) *)
+Theorem C08_mpz_powm_as_coded_odd_partial : forall b e m, mpz_wf b -> mpz_wf e -> mpz_wf m -> 64 * len (d e) < B ->
+  Z.odd (lat (d m) 0) = true -> Z.abs (value e) <> 1 ->
+  match mpz_powm (value b) (value e) (value m) with
+  | Ok v => exists z, mpz_powm_c b e m = Ok z /\ value z = v /\ mpz_wf z
+  | DivByZero => mpz_powm_c b e m = DivByZero
+  end.
+Proof. exact mpz_powm_c_odd_spec. Qed.
+Print Assumptions C08_mpz_powm_as_coded_odd_partial.
 
 Example C08_nonvacuous :
   mpz_powm 2 5 (3 * 2 ^ 64) = Ok 32 /\ mpz_powm 3 (-1) 7 = Ok 5 /\ mpz_powm (-2) 3 5 = Ok 2
